@@ -33,6 +33,10 @@ CHECKS["C06"] = dict(level="other", design="3/C06", technique="abstract interpre
     text="For each operator x operand type pair x overflow tag x detection path, one operand is pinned to a boundary constant; LLVM reduces the checked operation to a function of the other operand, whose ite tree partitions that operand's whole range into interval sets; on each part the outcome (plain result / saturation bound / throw or trap with the right polarity) is compared with what an exact oracle demands. A line is decided for all values of the free operand, interior boundary included.",
     note="Decides exactness along lines (one operand a boundary constant), not for arbitrary operand pairs; lines whose branch conditions the interval domain cannot invert are counted as undecided (floor-guarded). Floating-point sources and 128-bit operands are not covered in the quick tier.")
 
+CHECKS["C07"] = dict(level="other", design="3/C07", technique="same line engine in UB mode: every undefined integer operation instrumented as a sanitizer trap, trap leaves located on interval sets of the free operand; whole-domain residual-trap count for two-operand kernels",
+    text="The checked operations (saturated/throwing/trapping, both detection paths) are recompiled in release mode with signed overflow, out-of-range shifts, division by zero / lowest/-1, unreachable and invalid builtin arguments instrumented as traps. On a line a surviving trap is a leaf of the ite tree and the interval partition states for exactly which operand values it executes: a non-empty set is a definite undefined operation. Two-operand kernels must contain no trap where LLVM can discharge them.",
+    note="Relational safety of the final unchecked operation for two free operands is undecidable for LLVM's range analysis (counted as undischarged, never an alarm); along lines it is decided.")
+
 NOT_APPLICABLE = {
     "C10": "limb-array loops of the vendored uintwide_t have data-dependent control; no static abstraction in reach relates them to arithmetic mod 2^N (DESIGN 3/C10)",
     "C17": "termination/accuracy of the floating-point driven Stern-Brocot loop is a numerical statement with no structural clause (DESIGN 3/C17)",
